@@ -1,6 +1,7 @@
 import Lean.Data.Json
 import SpoxModel.Drv.VPCodec
 import SpoxModel.Model.VPHistory
+import SpoxModel.Model.VPFeed
 /-! Line-protocol handler for property C07: `{"fn": "history", "steps": [...]}` runs a construction
     history on the model (`VP.run`, fixed variant) and reports every node's output values; the other
     requests (`conv`, `node`) are those of the shared codec. -/
@@ -14,6 +15,43 @@ partial def parsePayload (j : Json) : Except String Payload := do
     return .arr (← parseDT (← j.getObjValAs? String "dt")) (← j.getObjValAs? (List Nat) "shape")
       (← j.getObjValAs? Nat "pid")
   | _ => throw s!"constant payloads are arrays, got {p}"
+
+mutual
+/-- A payload of any nesting; nested PropValues go through the constructor (`PropValue.new`) as in Python. -/
+partial def parsePayloadFull (j : Json) : Except String Payload := do
+  let p ← j.getObjValAs? String "p"
+  match p with
+  | "arr" =>
+    return .arr (← parseDT (← j.getObjValAs? String "dt")) (← j.getObjValAs? (List Nat) "shape")
+      (← j.getObjValAs? Nat "pid")
+  | "list" =>
+    let xs ← j.getObjValAs? (Array Json) "xs"
+    return .list (← xs.toList.mapM parsePvFull)
+  | "some" => return .some (← parsePvFull (← j.getObjVal? "v"))
+  | "none" => return .none
+  | _ => throw s!"bad payload tag {p}"
+partial def parsePvFull (j : Json) : Except String PropValue := do
+  return PropValue.new (← parseTy (← j.getObjVal? "ty")) (← parsePayloadFull (← j.getObjVal? "val"))
+end
+
+partial def refJson : RefVal → Json
+  | .arr dt sh pid => Json.mkObj [("r", "arr"), ("dt", dtName dt), ("shape", toJson sh), ("pid", toJson pid)]
+  | .list xs => Json.mkObj [("r", "list"), ("xs", Json.arr (xs.map refJson).toArray)]
+  | .none => Json.mkObj [("r", "none")]
+  | .scalar dt pid => Json.mkObj [("r", "scalar"), ("dt", dtName dt), ("pid", toJson pid)]
+  | .opaque pid => Json.mkObj [("r", "opaque"), ("pid", toJson pid)]
+  | .ragged => Json.mkObj [("r", "ragged")]
+
+/-- `{"fn": "feed", sel, ty, val}`: the value `PropValue(ty, val)` as `wrap_feed` hands it to the backend, what
+    `unwrap_feed` makes of that under the same type, `check` of the value, and (theorem side) whether the type is
+    in the round-trip class and what `retype` predicts. -/
+def feedJson (sel : BackendSel) (ty : Ty) (p : Payload) : Json :=
+  let pv := PropValue.new ty p
+  match wrapFeed sel pv.value with
+  | .error e => Json.mkObj [("raised", excName e)]
+  | .ok r =>
+    Json.mkObj [("fed", refJson r), ("back", convJson Variant.fixed ty (unwrapFeed sel ty r)),
+      ("check", check Variant.fixed pv), ("feedOk", feedOk sel ty), ("retype", payloadJson (retype ty pv.value))]
 
 def parseRefs (j : Json) : Except String (List VarRef) := do
   let a ← j.getArr?
@@ -61,6 +99,14 @@ def handle (req : Json) : Json :=
       let steps ← stepsJ.toList.mapM parseStep
       let st := run Variant.fixed [] steps
       return Json.mkObj [("nodes", Json.arr (st.map nodeJson).toArray)]) with
+    | .ok j => j
+    | .error e => Json.mkObj [("error", e)]
+  | .ok "feed" =>
+    match (do
+      let sel ← parseSel (← req.getObjValAs? String "sel")
+      let ty ← parseTy (← req.getObjVal? "ty")
+      let p ← parsePayloadFull (← req.getObjVal? "val")
+      return feedJson sel ty p) with
     | .ok j => j
     | .error e => Json.mkObj [("error", e)]
   | _ => Drv.VPCodec.handle req
